@@ -1,0 +1,5 @@
+//go:build !verif
+
+package renderer
+
+func verifPoint(string) {}
